@@ -13,6 +13,7 @@ import (
 	"sync"
 
 	"github.com/Oneledger/protocol/action"
+	evact "github.com/Oneledger/protocol/action/evidence"
 	govact "github.com/Oneledger/protocol/action/governance"
 	"github.com/Oneledger/protocol/data/governance"
 	"github.com/ethereum/go-ethereum/rlp"
@@ -293,6 +294,21 @@ func checkC07(tier string) int {
 				}
 			}
 			cands = append(cands, newcomers...)
+			// ... and release requests of frozen validators (check-only here; the evidence script sends its own)
+			var releases [][]byte
+			for _, fv := range w0.Vals {
+				if sr := gen.Susp(run.State, fv.ValAddr.String()); sr != nil && sr.IsFrozen() {
+					inj++
+					releases = append(releases, txb.Tx(&evact.Release{ValidatorAddress: fv.ValAddr}, txb.DefaultFee(), fmt.Sprintf("c07-release-%d-%d", hseed, inj), gen.ConsAccount(fv)))
+				}
+			}
+			cands = append(cands, releases...)
+			if len(releases) > 0 && !concurrent {
+				b := []string{"after:BeginBlock", "before:EndBlock", "after:DeliverTx:0"}[int(h)%3]
+				alt.Inject[b] = append(alt.Inject[b], releases...)
+				used = append(used, b)
+				r.Count("injected_release_of_a_frozen_validator", len(releases))
+			}
 			if len(cands) == 0 {
 				return &alt
 			}
